@@ -311,7 +311,7 @@ theorem dataRead_spec : ∀ (fuel : Nat) (r : DR) (w : W) (k : Nat) (acc : Bytes
   | succ fuel ih =>
     intro r w k acc hwf
     simp only [dataRead]
-    by_cases h0 : (r.limited && r.n == 0) = true
+    by_cases h0 : (r.limited && r.n == 0 && r.state != .eof) = true
     · simp only [h0, if_true]
       have hp := peek3_facts (fuelOf w) w hwf
       rcases hpk : peek3 (fuelOf w) w with ⟨w1, p⟩
@@ -319,7 +319,7 @@ theorem dataRead_spec : ∀ (fuel : Nat) (r : DR) (w : W) (k : Nat) (acc : Bytes
       simp only [] at hp ⊢
       obtain ⟨p1, p2, p3, p4, p5⟩ := hp
       have hlim : r.limited = true := by
-        simp only [Bool.and_eq_true] at h0; exact h0.1
+        simp only [Bool.and_eq_true] at h0; exact h0.1.1
       by_cases hm : (r.state == St.bol && p == DataReader.marker) = true
       · simp only [hm, if_true]
         simp only [Bool.and_eq_true, beq_iff_eq] at hm
